@@ -1911,7 +1911,11 @@ func getFunc(n *node) {
 
 	n.exec = func(f *frame) bltn {
 		fr := f.clone()
-		o := getFrame(f, l).data[i]
+		if l == 0 && i < len(fr.data) {
+			// The clone must not keep the function value left in this literal's slot by its previous
+			// evaluation alive (each closure would retain its predecessor).
+			fr.data[i] = reflect.Value{}
+		}
 
 		fct := reflect.MakeFunc(n.typ.TypeOf(), func(in []reflect.Value) []reflect.Value {
 			// Allocate and init local frame. All values to be settable and addressable.
@@ -1941,10 +1945,6 @@ func getFunc(n *node) {
 
 			// Interpreter code execution.
 			runCfg(n.child[3].start, fr2, n, n)
-
-			f.mutex.Lock()
-			getFrame(f, l).data[i] = o
-			f.mutex.Unlock()
 
 			return fr2.data[:numRet]
 		})
